@@ -17,12 +17,14 @@ PROPS = {
         'level': 'proof',
         'units': [
             {'engine': 'verus', 'name': 'par_range', 'tier': 'quick', 'role': 'IntoParallelSource::generate_iterator for Range<u64> and the 9 macro instances + partition lemma'},
+            {'engine': 'verus', 'name': 'file_source', 'tier': 'quick', 'role': 'FileSource::{setup,next}: byte ranges tile the file; a replica emits exactly the lines starting in (lo, hi]'},
+            {'engine': 'verus', 'name': 'channel_source', 'tier': 'quick', 'role': 'ChannelSource::next: every received item is emitted once, in order'},
         ],
         'explanation': 'Verus proof (unbounded) that every integer-range instance of generate_iterator returns exactly the chunk '
                        '[lo+min(n,i*c), lo+min(n,(i+1)*c)) without panicking for all bounds incl. reversed and near-limit ones, and a pure '
                        'lemma that these chunks are a disjoint cover of the range.',
         'assumptions': [
-            'file/CSV sources: see unit list (FileSource bounded, CsvSource not covered)',
+            'CsvSource (byte-range alignment interleaved with csv::Reader construction) and IteratorSource are not under contract',
         ],
     },
     'C02': {
@@ -44,6 +46,7 @@ PROPS = {
         'units': [
             {'engine': 'verus', 'name': 'next_strategy', 'tier': 'quick', 'role': 'NextStrategy::index'},
             {'engine': 'verus', 'name': 'end_next', 'tier': 'quick', 'role': 'End::next routing contract'},
+            {'engine': 'verus', 'name': 'route_next', 'tier': 'quick', 'role': 'RoutingEnd::next: control elements reach every connected replica'},
         ],
         'explanation': 'Verus proof, for any number of senders/groups, that End::next hands a data element to exactly one sender of every '
                        'downstream group (the one at index(m) mod |group|) and to no other, broadcasts Watermark/FlushAndRestart to every sender, '
@@ -57,6 +60,7 @@ PROPS = {
         'units': [
             {'engine': 'verus', 'name': 'end_next', 'tier': 'quick', 'role': 'split (one copy per downstream block) and broadcast (All: singleton groups)'},
             {'engine': 'verus', 'name': 'zip', 'tier': 'quick', 'role': 'Zip::next: positional one-to-one pairing, min(|a|,|b|) pairs'},
+            {'engine': 'verus', 'name': 'route_next', 'tier': 'quick', 'role': 'RoutingEnd::next: first matching route wins, no other route, unmatched dropped, control to every sender'},
         ],
         'explanation': 'End::next sends one copy of every element to each downstream block group (split) and, with singleton groups (All), to every replica (broadcast).',
         'assumptions': [],
@@ -68,6 +72,7 @@ PROPS = {
             {'engine': 'verus', 'name': 'end_next', 'tier': 'quick', 'role': 'FlushBatch / FlushAndRestart flush every batcher; Terminate ends every batcher'},
             {'engine': 'verus', 'name': 'start_next', 'tier': 'quick', 'exclude_obligations': ['start.progress_on_replica_end'], 'role': 'a receive timeout is turned into FlushBatch (and only then)'},
             {'engine': 'verus', 'name': 'channel_source', 'tier': 'quick', 'role': 'ChannelSource::next: FlushBatch before every blocking wait; the idle budget restarts after every item'},
+            {'engine': 'verus', 'name': 'route_next', 'tier': 'quick', 'role': 'RoutingEnd::next: FlushBatch / FlushAndRestart flush every batcher'},
         ],
         'explanation': 'no-withholding safety: after End::next returns FlushBatch or FlushAndRestart no batcher has pending elements; adaptive/fixed batchers '
                        'flush when full or when the delay expired (clock = any value); the delivered sequence is the same for every batch mode. '
@@ -106,7 +111,8 @@ PROPS = {
         'level': 'proof',
         'units': [
             {'engine': 'verus', 'name': 'start_next', 'tier': 'quick', 'role': 'a pulled watermark that advances the frontier is forwarded at once; no silent frontier progress (KNOWN-FINDING on the FlushAndRestart arm)'},
-            {'engine': 'kani', 'name': 'frontier', 'tier': 'quick', 'bounded': True, 'role': 'WatermarkFrontier::update returns Some(new minimum) whenever the minimum increased (O1)'},
+            {'engine': 'verus', 'name': 'frontier_v', 'tier': 'quick', 'role': 'WatermarkFrontier::update returns Some(new minimum) whenever the minimum increased (O1), any number of replicas'},
+            {'engine': 'kani', 'name': 'frontier', 'tier': 'thorough', 'bounded': True, 'role': 'same contract on the real IndexMap, 2 replicas'},
         ],
         'explanation': 'Start::next returns Watermark(new frontier) immediately when a pulled watermark advances the frontier (O2) and never lets the frontier advance silently; '
                        'the obligation fails on the FlushAndRestart arm (update(sender, MAX) result discarded) which is the recorded known finding F1.',
@@ -120,7 +126,8 @@ PROPS = {
             {'engine': 'verus', 'name': 'zip', 'tier': 'quick', 'role': 'Zip::next: a pair carries the max of the two timestamps'},
             {'engine': 'verus', 'name': 'event_time_v', 'tier': 'quick', 'exclude_obligations': ['process.early_element_not_dropped'], 'role': 'EventTimeWindowManager::process: after Watermark(w) no window that can still fire has end <= w'},
             {'engine': 'verus', 'name': 'fold', 'tier': 'quick', 'role': 'Fold::next: watermark held back until the result (stamped with the max timestamp) is out'},
-            {'engine': 'kani', 'name': 'frontier', 'tier': 'quick', 'bounded': True, 'role': 'WatermarkFrontier::{new,update,reset}, opt_join: front = min of entries, returns the new frontier iff it changed (2 upstream replicas)'},
+            {'engine': 'verus', 'name': 'frontier_v', 'tier': 'quick', 'role': 'WatermarkFrontier::{update,compute_frontier,reset}: front = min of entries or None, returns the new frontier iff it changed, announced values strictly increase (any number of replicas; IndexMap modelled)'},
+            {'engine': 'kani', 'name': 'frontier', 'tier': 'thorough', 'bounded': True, 'role': 'same contract on the REAL IndexMap + fxhash, 2 upstream replicas; opt_join complete'},
         ],
         'explanation': 'per-operator watermark contracts proved on the real next() functions (Verus, unbounded) plus the frontier / event-time window contracts (Kani single-call harnesses, bounded state size).',
         'assumptions': ['W_in: the operator input respects the watermark contract', 'Fold/KeyedFold/FlatMap/AddTimestamp/WindowOperator wiring: see unit list'],
